@@ -10,13 +10,63 @@ TOKERR = re.compile(r"on exit: expected (\d+) tokens; found (\d+)-(\d+)")
 
 
 @st.composite
+def lockwait_cases(draw, tier):
+    """Directed family: another invocation (own jobserver, started first) holds 2-3 leaves at their gates; the
+    measured invocation runs under the harness' jobserver with 0-1 spare tokens and log capture, and its nested
+    redo-ifchange has to wait for those locks one after the other, giving its token away each time -- while the
+    harness (the parent make) steals and returns tokens.  This is where cheat tokens and their repayment happen."""
+    n = draw(st.integers(2, 3))
+    leaves = ["l%d" % i for i in range(n)]
+    dofiles = {}
+    for t in leaves:
+        dofiles[t + ".do"] = {"v": 1, "body": [["dep", 1, ["s0"]], ["work", 1], ["out", "stdout"]]}
+    order = sgen._subset(draw, leaves, n, n)
+    body = []
+    revisit = draw(st.integers(0, 1)) == 1
+    if revisit:
+        # the script asks for some leaves, pauses at a gate, then asks for all of them again: the other invocation
+        # (a forced `redo` of the leaves) can start in between, and the log viewer has already visited those leaves
+        # once (it follows a target's log only once per session, which is when a waiting job may cheat)
+        body.append(["dep", 1, sgen._subset(draw, leaves, 1, n)])
+        body.append(["work", 0])
+        body.append(["dep", 1, order])
+    elif draw(st.integers(0, 1)):
+        body.append(["dep", 1, order])
+    else:
+        body.append(["dep", 1, order[:1]])
+        body.append(["dep", 1, order[1:]])
+    body.append(["out", "stdout"])
+    dofiles["top0.do"] = {"v": 1, "body": body}
+    extra = []
+    if draw(st.integers(0, 1)):
+        dofiles["top1.do"] = {"v": 1, "body": [["dep", 1, ["top0"]], ["out", "stdout"]]}
+        extra = ["top1"]
+    proj = {"dirs": [""], "sources": ["s0"], "dofiles": dofiles, "targets": leaves + ["top0"] + extra, "watch": [],
+            "layers": {"leaves": leaves, "mids": [], "tops": ["top0"] + extra}}
+    contender = {"argv": ["redo", "-j%d" % draw(st.integers(n, n + 1))] + leaves, "cwd": "", "env": {"REDO_LOG": "0"},
+                 "jobserver": None, "limit": n}
+    js = {"tokens": draw(st.integers(0, 1)), "held": draw(st.integers(0, 1)), "high": draw(st.integers(0, 2)) > 0}
+    kind = draw(st.sampled_from(["redo", "redo-ifchange"]))
+    measured = {"argv": [kind] + (extra or ["top0"]), "cwd": "", "env": {}, "jobserver": js, "limit": None}
+    invs, midx, start_first = [contender, measured], 1, True
+    if revisit:
+        invs, midx, start_first = [measured, contender], 0, False
+    return {"project": proj, "invs": invs, "measured": midx, "schedule": draw(sgen.schedule(24)),
+            "failing": [], "cyclic": False, "family": "lockwait", "revisit": revisit,
+            "sopts": {"seed": draw(st.integers(1, 2 ** 31 - 1)), "coincide": draw(st.integers(0, 3)) == 0,
+                      "token_games": True, "patient": True, "start_first": start_first, "smart_tokens": True}}
+
+
+@st.composite
 def cases(draw, tier):
+    if draw(st.integers(0, 99)) < 35:
+        return draw(lockwait_cases(tier))
     proj = draw(sgen.graphs({"max_leaf": 6 if tier == "quick" else 9, "max_mid": 4 if tier == "quick" else 7,
                              "p_gate": 80, "p_csum": 10, "p_always": 5, "p_fail": 12}))
     L = proj["layers"]
     allt = L["tops"] + L["mids"] + L["leaves"]
     cyclic = False
-    if draw(st.integers(0, 99)) < 15:
+    if draw(st.integers(0, 99)) < 7:
         # error-exit variant: a mid that (after a gated leaf, in the same redo-ifchange) asks for a top which itself
         # depends on that mid -> the nested redo-ifchange meets a cyclic dependency while its first job still runs
         for top in L["tops"]:
@@ -58,6 +108,12 @@ def cases(draw, tier):
         n2 = draw(st.integers(1, 4))
         env2 = {} if draw(st.integers(0, 1)) else {"REDO_LOG": "0"}
         invs.append({"argv": ["redo", "-j%d" % n2] + ts2, "cwd": "", "env": env2, "jobserver": None, "limit": n2})
+    measured = 0
+    if len(invs) == 2 and not cyclic and draw(st.integers(0, 1)):
+        # the contender starts FIRST and holds the locks (its scripts sit at their gates); the measured invocation
+        # then has to wait for one lock after the other, giving its token away meanwhile
+        invs = [invs[1], invs[0]]
+        measured = 1
     fails = sorted({s[1] for spec in proj["dofiles"].values() for s in spec["body"] if s[0] == "failflag"})
     failing = [f for f in fails if draw(st.integers(0, 2)) == 0]
     if cyclic:
@@ -65,8 +121,9 @@ def cases(draw, tier):
         for inv in invs[:1]:
             tops_in = [t for t in L["tops"] if t not in inv["argv"]]
             inv["argv"] += L["tops"][:1] if L["tops"][0] not in inv["argv"] else []
-    return {"project": proj, "invs": invs, "schedule": draw(sgen.schedule(32)), "failing": failing, "cyclic": cyclic,
-            "sopts": {"coincide": draw(st.integers(0, 2)) > 0, "token_games": inherited and draw(st.integers(0, 1)) == 1,
+    return {"project": proj, "invs": invs, "measured": measured, "schedule": draw(sgen.schedule(32)), "failing": failing,
+            "cyclic": cyclic,
+            "sopts": {"seed": draw(st.integers(0, 2 ** 31 - 1)), "coincide": draw(st.integers(0, 2)) > 0, "token_games": inherited and draw(st.integers(0, 1)) == 1,
                       "patient": draw(st.integers(0, 2)) == 0, "start_first": draw(st.integers(0, 1)) == 1}}
 
 
@@ -112,7 +169,17 @@ def run_case(case, tier):
                                  "detail": {"argv": inv.spec["argv"], "text": text[-1500:]},
                                  "sig": {"symptom": hist.panic_sig(text)}}
                 return out
-        inv0 = r.invs[0]
+        inv0 = r.invs[case.get("measured", 0)]
+        if case.get("measured"):
+            out.events["c08:contender-started-first"] += 1
+        if case.get("family") == "lockwait":
+            out.events["c08:lock-wait-family"] += 1
+            if case.get("revisit"):
+                out.events["c08:lock-wait-family/leaves-requested-twice-around-a-gate"] += 1
+            if r.jp and r.jp.cheats() > 0:
+                out.events["c08:cheat-byte-seen-in-cheat-pipe"] += 1
+            if any(a == "steal" and k > 0 for a, k in r.token_log):
+                out.events["c08:token-stolen-while-waiting"] += 1
         log_on = "REDO_LOG" not in inv0.spec["env"]
         failing = bool(case.get("failing")) or "" in inv0.spec["argv"] or bool(case.get("cyclic"))
         if case.get("cyclic") and any("cyclic" in t or "208" in t for t in texts):
@@ -192,7 +259,7 @@ class Spec:
     assumptions = ["cheat decisions depend on redo's 10 ms-1 s back-off timers, which the harness does not own"]
 
     def cases(self, tier):
-        return 480 if tier == "quick" else 4800
+        return 800 if tier == "quick" else 9600
 
     def strategy(self, tier):
         return cases(tier)
